@@ -24,6 +24,9 @@ type SwitchMsg struct {
 	Lib  util.Message
 	Tree *spec.Node
 	Pkt  *Pkt // packet-in payload description
+	// Cut: the packet-in carries only the first CutAt bytes of Pkt.Wire (see G.CutPackets)
+	Cut   bool
+	CutAt int
 }
 
 func (g *G) portDual() (*of.PhyPort, *spec.Node) {
@@ -185,7 +188,24 @@ func (g *G) SwitchMessageOf(kind string) SwitchMsg {
 		n := spec.N("msg.packet_in", spec.U("xid", x), spec.U("buffer_id", uint64(p.BufferId)), spec.U("total_len", uint64(p.TotalLen)), spec.U("reason", uint64(p.Reason)),
 			spec.U("table_id", uint64(p.TableId)), spec.U("cookie", p.Cookie))
 		n.Add(mn)
-		n.With(spec.B("data", pk.Wire))
+		if g.CutPackets == 2 || (g.CutPackets == 1 && g.Chance("packet_cut_by_switch", 1, 6)) {
+			at := 0
+			switch g.Pick("cut_where", 6) {
+			case 0: // nothing at all: the packet is buffered, max_len 0
+			case 1: // inside the Ethernet header or right behind it
+				at = g.Int("cut_at_l2", 1, min(18, len(pk.Wire)-1))
+			case 2, 3: // inside the network or transport header
+				at = g.Int("cut_at_l3l4", min(14, len(pk.Wire)-1), min(86, len(pk.Wire)-1))
+			default:
+				at = g.Int("cut_at", 1, len(pk.Wire)-1)
+			}
+			sm.CutAt = at
+			sm.Cut = true
+			n.With(spec.B("data", pk.Wire[:at]))
+			g.Label("packet_in_data_cut_by_switch")
+		} else {
+			n.With(spec.B("data", pk.Wire))
+		}
 		p.Header.Length = uint16(len(spec.Encode(n)))
 		sm.Lib, sm.Tree = p, n
 	case "flow_removed":
